@@ -39,7 +39,7 @@ RE_TRIM_SPACES = re.compile(r"^\s*(\S.*?)\s*$")
 RE_TRIM_COLONS = re.compile(r"(\S.*?):*$")
 
 RE_SANITIZE_SKIP = re.compile(
-    r"\t|\n|\r|\u00bb|,\s\u0432\b|\u200e|\xb7|\u200f|\u064e|\u064f", flags=re.M
+    r"\t|\n|\r|\u00bb|,\s+\u0432\b|\u200e|\xb7|\u200f|\u064e|\u064f", flags=re.M
 )
 RE_SANITIZE_RUSSIAN = re.compile(r"([\W\d])\u0433\.", flags=re.I | re.U)
 RE_SANITIZE_CROATIAN = re.compile(
